@@ -116,10 +116,36 @@ structure AppleOK (env : Prog.Env) (o : AttObj) (h : Bytes) (res : Result) : Pro
     res = ⟨"AnonCA", der :: rest.map (·.1)⟩
 
 /-! android-safetynet -/
+
+/-- every entry of the protected header's `x5c` parses as a certificate: DER bytes paired with the parsed views, in order -/
+def ChainParsed (env : Prog.Env) : List Bytes → List (Bytes × CertView) → Prop
+  | [], [] => True
+  | der :: ds, (d, c) :: cs => d = der ∧ env.answer (.x509Parse der) = .cert c ∧ ChainParsed env ds cs
+  | _, _ => False
+
+/-- what the dependency steps establish about the SafetyNet response `raw`, and the nonce its payload carries.
+    * compact serialisation (`Jws.parse`, `Jws.claims` are Lean functions): the token has the three base64url parts, its protected
+      header decodes, every `x5c` entry is a certificate, the first one validates for `attest.android.com` with the others as
+      intermediates, go-jose reaches the signature check (`verifiable`) and the signature verifies under that first certificate's key,
+      and the payload decodes as SafetyNet claims with this `nonce`;
+    * the forms the Lean model does not cover (JSON serialisation, a "jwk" header): the opaque answer of the dependency, as before. -/
+inductive SafetyNetResponse (env : Prog.Env) (raw : Bytes) (nonce : Bytes) : Prop where
+  | compact (c : Jws.Compact) (der : Bytes) (cert : CertView) (rest : List (Bytes × CertView))
+      (parsed : Jws.parse raw = .ok c)
+      (chain : ChainParsed env c.x5c ((der, cert) :: rest))
+      (trusted : env.answer (.x509Verify der (rest.map (·.1)) safetyNetDNSName) = .bool true)
+      (verifiable : c.verifiable = true)
+      (signed : env.answer (.jwsVerify raw der) = .bool true)
+      (claims : Jws.claims c.payload = some nonce)
+  | opaque (v : SafetyNetView)
+      (unmodelled : Jws.parse raw = .unmodelled)
+      (answer : env.answer (.safetyNet raw) = .safetyNet v)
+      (parsed : v.parsed = true) (chains : v.chainsOK = true) (claims : v.claimsOK = true)
+      (nonce_eq : v.nonce = nonce)
+
 structure SafetyNetOK (env : Prog.Env) (o : AttObj) (h : Bytes) (res : Result) : Prop where
-  body : ∃ raw v, stmtBytes o.stmt "response" = some raw ∧ env.answer (.safetyNet raw) = .safetyNet v ∧
-    v.parsed = true ∧ v.chainsOK = true ∧ v.claimsOK = true ∧      -- chain validates for attest.android.com, JWS verifies under the leaf
-    v.nonce = Spec.sha256 env (o.authData ++ h) ∧
+  body : ∃ raw nonce, stmtBytes o.stmt "response" = some raw ∧ SafetyNetResponse env raw nonce ∧
+    nonce = Spec.sha256 env (o.authData ++ h) ∧
     res = ⟨"Basic", []⟩
 
 /-- dispatch on the exact format identifier -/
